@@ -175,6 +175,7 @@ func ComputeRegistryProcessData(spec *common.Spec, flats []common.FlatValidator,
 		}
 		if exit > exitQueueEnd {
 			exitQueueEnd = exit
+			exitQueueEndChurn = 0
 		}
 		if exit == exitQueueEnd {
 			exitQueueEndChurn++
